@@ -444,8 +444,12 @@ class ScriptGen:
                 attrs += [":weight", str(r.randint(0, 9))]
             else:
                 # attribute values are opaque text for the parser: written flat (no comments inside)
-                if not isinstance(a, str):
+                if not isinstance(a, str) and '"' not in render(r, [a], False) and ";" not in render(r, [a], False):
+                    # (the parser counts the parentheses of an attribute value character by character: a string literal
+                    #  or quoted symbol containing a parenthesis makes it lose track -- rejected with an error)
                     attrs += [":pattern", render(r, [a], False)]
+                elif not isinstance(a, str):
+                    attrs += [":weight", "2"]
                 elif "|" not in a and '"' not in a:
                     # (a quoted symbol as attribute value loses its bars in pySMT's annotation table: P03)
                     attrs += [":no-pattern", a]
@@ -1001,6 +1005,50 @@ class ScriptGen:
         body, db = self.gen(B, depth, self.scope)
         self.cmds.append((["assert", body], ("assert", db)))
 
+    def omt_commands(self):
+        """OMT extension commands (outside SMT-LIB: compared with the generator's reading and with the model)"""
+        r = self.rng
+        self.nonstd = True
+        self.tags.add("omt")
+        for _ in range(r.choice([1, 2, 3])):
+            k = r.choice(["assert-soft", "maximize", "minimize", "minmax", "maxmin", "check-allsat", "load-objective-model",
+                          "get-objectives"])
+            nums = [t for t in self.value_types() if t in (I, R) or t[0] == "V"]
+            if k == "assert-soft":
+                t, d = self.gen(B, 2, self.scope)
+                sx = ["assert-soft", t]
+                if r.random() < 0.6:
+                    sx += [":weight", r.choice(["1", "3", "0.5" if "real" in self.theories or self.logic is None else "2"])]
+                if r.random() < 0.6:
+                    sx += [":id", r.choice(["goal", "g1"])]
+                self.cmds.append((sx, ("omt1", k, d)))
+            elif k in ("maximize", "minimize") and nums:
+                t, d = self.gen(r.choice(nums), 2, self.scope)
+                sx = [k, t]
+                if r.random() < 0.4:
+                    sx += [":id", "obj"]
+                if r.random() < 0.4:
+                    sx += [":signed"]
+                self.cmds.append((sx, ("omt1", k, d)))
+            elif k in ("minmax", "maxmin") and nums:
+                ty = r.choice(nums)
+                ts = [self.gen(ty, 2, self.scope) for _ in range(r.choice([1, 2, 3]))]
+                sx = [k] + [t[0] for t in ts]
+                if r.random() < 0.4:
+                    sx += [":id", "mm"]
+                if r.random() < 0.3:
+                    sx += [":signed"]
+                self.cmds.append((sx, ("omtN", k, [t[1] for t in ts])))
+            elif k == "check-allsat":
+                ps = [n for n, e in self.scope.items() if e.kind == "sym" and e.ty == B]
+                chosen = r.sample(ps, min(len(ps), r.choice([0, 1, 2])))
+                self.cmds.append((["check-allsat", [self.symtok(n) for n in chosen]],
+                                  ("terms", "check-allsat", [(lambda pe, s=self.scope[n].data: s) for n in chosen])))
+            elif k == "load-objective-model":
+                self.cmds.append((["load-objective-model", "1"], ("plain", k)))
+            elif k == "get-objectives":
+                self.cmds.append((["get-objectives"], ("plain", k)))
+
     def build(self):
         r = self.rng
         if self.logic is not None:
@@ -1063,7 +1111,9 @@ class ScriptGen:
                                       ("terms", "check-sat-assuming", [l[1] for l in lits])))
             else:
                 self.define_sort()
-        if not any(e[1][0] in ("assert", "define-fun", "terms") for e in self.cmds):
+        if r.random() < 0.12:
+            self.omt_commands()
+        if not any(e[1][0] in ("assert", "define-fun", "terms", "omt1", "omtN") for e in self.cmds):
             self.assert_()
         if r.random() < 0.5:
             self.cmds.append((["check-sat"], ("plain", "check-sat")))
@@ -1407,6 +1457,15 @@ def expected_terms(gen, script):
             if len(c.args) != len(e[2]):
                 raise ValueError("command %d: %s has %d terms, expected %d" % (i, e[1], len(c.args), len(e[2])))
             for j, (d, a) in enumerate(zip(e[2], c.args)):
+                pairs.append(("%s#%d.%d" % (e[1], i, j), d({}), a))
+        elif kind == "omt1":
+            if c.name != e[1]:
+                raise ValueError("command %d: expected %s, got %s" % (i, e[1], c.name))
+            pairs.append(("%s#%d" % (e[1], i), e[2]({}), c.args[0]))
+        elif kind == "omtN":
+            if c.name != e[1] or len(c.args[0]) != len(e[2]):
+                raise ValueError("command %d: %s has %d terms, expected %d" % (i, e[1], len(c.args[0]), len(e[2])))
+            for j, (d, a) in enumerate(zip(e[2], c.args[0])):
                 pairs.append(("%s#%d.%d" % (e[1], i, j), d({}), a))
         elif kind == "declare":
             if c.name not in ("declare-fun", "declare-const"):
@@ -1936,7 +1995,18 @@ def enc_script(script):
                                               wire.enc_type(rtype), wire.enc_term(body)))
         elif n == "assert":
             parts.append("A " + wire.enc_term(c.args[0]))
-        elif n in ("get-value", "check-sat-assuming"):
+        elif n == "assert-soft":
+            opts = dict(c.args[1])
+            parts.append("AS %s %s %s" % (wire.enc_term(c.args[0]), wire.enc_term(opts[":weight"]), hx(opts[":id"])))
+        elif n in ("maximize", "minimize"):
+            parts.append("OB %s %s %d%s" % (hx(n), wire.enc_term(c.args[0]), len(c.args[1]),
+                                           "".join(" %s %s" % (hx(k), hx(str(v))) for k, v in c.args[1])))
+        elif n in ("minmax", "maxmin"):
+            parts.append("MM %s %d%s %d%s" % (hx(n), len(c.args[0]), "".join(" " + wire.enc_term(t) for t in c.args[0]),
+                                              len(c.args[1]), "".join(" %s %s" % (hx(k), hx(str(v))) for k, v in c.args[1])))
+        elif n == "load-objective-model":
+            parts.append("LO %d" % c.args[0])
+        elif n in ("get-value", "check-sat-assuming", "check-allsat"):
             parts.append("T %s %d%s" % (hx(n), len(c.args), "".join(" " + wire.enc_term(a) for a in c.args)))
         else:
             if not all(isinstance(a, str) for a in c.args):
@@ -1995,6 +2065,8 @@ def _term_of(script, what):
     c = script.commands[ci]
     if c.name == "define-fun":
         return c.args[3]
+    if c.name in ("minmax", "maxmin"):
+        return c.args[0][ai]
     return c.args[ai]
 
 
